@@ -20,19 +20,21 @@ def c02(tier, dev):
 # rows of other families are served by the dedicated modules of C14/C15 (tokenizer, conversions) and by the FMT
 # harness: their violations of *this* property's statement are selected by key and re-labelled
 FOREIGN = {
-    "C01": [("C01X", r"^C01:"), ("C15", r":store-|:wild-access"), ("C14", r":write-at-dmax|:wrote-outside-objects")],
+    "C01": [("C01X", r"^C01:"), ("C15", r":store-|:wild-access"), ("C14", r":write-at-dmax|:wrote-outside-objects"), ("C06B", r"^C01:")],
     "C02": [("C02X", r"^C02:"), ("C15", r":load-"), ("C14", r":read-at-dmax|:read-via-unset-ptr")],
     "C03": [("C03X", r"^C03:"), ("C15", r":not-terminated|:no-space-accepted")],
     "C04": [("C04X", r"^C04:"), ("C15", r":not-cleared"), ("C07C", r"^C04:")],
     "C05": [("C05X", r"^C05:"), ("C07H", r"^C05:")],
-    "C06": [("C06X", r"^C06:"), ("C15", r":no-space-accepted|:wrong-characters|:wrong-count")],
-    "C08": [("C08X", r"^C08:")],
+    "C06": [("C06X", r"^C06:"), ("C15", r":no-space-accepted|:wrong-characters|:wrong-count"), ("C06B", r"^C06:")],
+    "C07": [("C06B", r"^C07:")],
+    "C08": [("C08X", r"^C08:"), ("C15", r":stale-slack")],
 }
 
 def foreign_campaigns(prop, tier):
     out = []
     for mod, rx in FOREIGN.get(prop, []):
-        out.append(Campaign(mod, "plain", cases=(1500000 if tier == "quick" else 15000000), keymap=(rx, prop)))
+        # C06B (large operands, ~1 ms per case) keeps its own budget: 3,000 / 40,000 cases
+        out.append(Campaign(mod, "plain", cases=(None if mod == "C06B" else (1500000 if tier == "quick" else 15000000)), keymap=(rx, prop)))
         if mod.endswith("X"):
             out.append(Campaign(mod, "plain-noslack", cases=(400000 if tier == "quick" else 4000000), keymap=(rx, prop)))
     return out
